@@ -208,6 +208,11 @@ let ff_op (op : string) (a : tok list) : string =
   | "modulus" -> bI FfConv.modulus
   | "one" -> raw_of_el FfLimbs.one
   | "legendre" -> bI (FfConv.legendre (el 0))
+  | "sqrtalias" ->
+    (match FfConv.sqrt (el 0) with
+     | FfConv.SqSome z -> raw_of_el z ^ " " ^ raw_of_el z
+     | FfConv.SqNil -> "nil " ^ raw_of_el (el 0)
+     | FfConv.SqOutOfFuel -> "OUTOFFUEL")
   | "sqrt" ->
     (match FfConv.sqrt (el 1) with
      | FfConv.SqSome z -> raw_of_el z ^ " " ^ raw_of_el z
@@ -262,6 +267,12 @@ let ffg_op (op : string) (a : tok list) : string =
      | "8" -> bI (FfgConv.setBytes (zb (List.nth a 1)))
      | _ -> "ERR")
   | "legendre" -> bI (FfgConv.legendre (el 0))
+  | "sqrtalias" ->
+    (match FfgConv.sqrt (el 0) with
+     | FfgConv.SqSome z -> bI z ^ " " ^ bI z
+     | FfgConv.SqNil -> "nil " ^ bI (el 0)
+     | FfgConv.SqOutOfFuel -> "OUTOFFUEL")
+  | "butterflyalias" -> bI (FfgLimbs.subGeneric (el 0) (FfgLimbs.addGeneric (el 0) (el 0)))
   | "sqrt" ->
     (match FfgConv.sqrt (el 1) with
      | FfgConv.SqSome z -> bI z ^ " " ^ bI z
@@ -289,6 +300,26 @@ let dispatch (op : string) (a : tok list) : string =
   | "padd" -> pt (BabyJub.coq_Affine (BabyJub.coq_Add (BabyJub.coq_Projective (p 0)) (BabyJub.coq_Projective (p 2))))
   | "paffine" -> pt (BabyJub.coq_Affine ((i 0, i 1), i 2))
   | "paddproj" -> pt (BabyJub.coq_Affine (BabyJub.coq_Add ((i 0, i 1), i 2) ((i 3, i 4), i 5)))
+  | "paddalias" ->
+    let p1 = BabyJub.coq_Projective (p 1) and p2 = BabyJub.coq_Projective (p 3) in
+    pt (BabyJub.coq_Affine (if Z.to_int (i 0) <= 2 then BabyJub.coq_Add p1 p2 else BabyJub.coq_Add p1 p1))
+  | "mulzero" -> pt (BabyJub.coq_Mul (i 0) (p 1))
+  | "mulshared" -> let r = BabyJub.coq_Mul (i 0) (p 1) in pt r ^ " " ^ pt r
+  | "signverify" ->
+    let dgp = (zw (List.nth a 0) = "p") in
+    let sg = if dgp then Eddsa.coq_SignPoseidon blake512 poseidon_hash (b 1) (i 2) else Eddsa.coq_SignMimc7 blake512 mimc7h (b 1) (i 2) in
+    (match sg with
+     | Outcome.Ok sg ->
+       (match Eddsa.coq_SigDecompress (Eddsa.coq_SigCompress sg) with
+        | Outcome.Ok sg2 ->
+          (match Eddsa.coq_PkDecompress (Eddsa.coq_PkCompress (Eddsa.coq_Public blake512 (b 1))) with
+           | Outcome.Ok pk2 ->
+             (match (if dgp then Eddsa.coq_VerifyPoseidon poseidon_hash pk2 (i 2) sg2 else Eddsa.coq_VerifyMimc7 mimc7h pk2 (i 2) sg2) with
+              | Outcome.Ok () -> "ok" | _ -> "REJECTED")
+           | _ -> "ERR-DECODE-PK")
+        | _ -> "ERR-DECODE-SIG")
+     | Outcome.Err -> "ERR" | Outcome.Panic -> "PANIC")
+  | "infieldarr" -> boolS (Utils.coq_CheckBigIntArrayInField q (l 0))
   | "mul" -> pt (BabyJub.coq_Mul (i 0) (p 1))
   | "mulrecv" | "mulalias" -> let r = BabyJub.coq_Mul (i 0) (p 1) in pt r ^ " " ^ pt r
   | "pset" | "psetalias" | "psetshared" -> pt (p 0) ^ " " ^ pt (p 0)
